@@ -142,7 +142,8 @@ struct Fix {
     CMutableTransaction prev; // funding transaction with several outputs
     Txid prev_id;
     Bytes dersig[3];
-} F;
+};
+Fix& F = *new Fix; // never destroyed: CKey's secure allocator pool is gone by the time static destructors run
 
 void init_fixture()
 {
